@@ -14,5 +14,6 @@ else
   echo "3-way apply FAILED for $ws:"; cat "/tmp/merge-$ws.err" | tail -20; exit 1
 fi
 git reset -q     # apply -3 stages; leave everything unstaged for the caller's commit
+touch "/work/$ws/.merged"
 python3 harness/gen_main.py
 /venv/bin/python harness/gen_manifest.py
